@@ -15,6 +15,11 @@ Sub-checks
   pairs    two POLY trees equal as functions by construction expand to equal term multisets
   helpers  flattened_sum / flattened_product on operand lists (value, shape, operand order)
 
+Genuine defects found on the unchanged tree are listed in findings/C11.json (F23a, F23b,
+F-C11-powpow, F-C11-dist-leading, F-C11-quotient-term, F-C11-fold-arith) with the predicates
+in KNOWN below; findings/C11.fix.diff repairs all of them (the check is then quiet without any
+predicate).
+
 Value oracle: pbt.polynf (exact rational-function normal form, decided per instance) for
 RATIONAL trees; an exact-arithmetic reference interpreter over a box of environments for all
 trees (also finds a pole introduced where the input evaluates).
@@ -75,12 +80,14 @@ ASSUMPTIONS = [
     "a rewrite that raises an ArithmeticError on an input that is undefined in every environment "
     "looked at (1/0 or 0**-1 outside any conditional) is not judged (label "
     "'undefined-input:rewrite-raises'); where the input evaluates somewhere it is a failure",
+    "generated expansions are kept small (pbt/c11_gen.py tame(): degree <= 10 and <= 400 terms "
+    "per power); cases that exceed CASE_TIMEOUT_S are skipped and counted",
     "a 'constant operand' of a folded sum/product is a number (non-Expression) operand",
     "terms of an expansion are the operands of its top-level sum(s); a term's coefficient and "
     "monomial are read off its exact polynomial value",
 ]
-HEALTH = {"flatten:nontrivial": 0.06, "fold:two-constants": 0.06, "collect:like-terms": 0.03,
-          "expand:nontrivial": 0.05, "pairs:nontrivial": 0.015, "dom:evaluable": 0.08,
+HEALTH = {"flatten:nontrivial": 0.06, "fold:two-constants": 0.06, "collect:like-terms": 0.02,
+          "expand:nontrivial": 0.04, "pairs:nontrivial": 0.015, "dom:evaluable": 0.08,
           "mixed-type-constants": 0.08}
 CASE_TIMEOUT_S = 10
 TIMEOUT_IS_FAIL = False
@@ -990,15 +997,15 @@ def _known_dist_leading(sub, spec, fail):
 
 
 def _known_quotient_term(sub, spec, fail):
-    """map_quotient returns 1/d unchanged and TermCollector.split_term refuses a Quotient as
-    an operand of a sum"""
+    """TermCollector.split_term refuses a Quotient as an operand of a sum; DistributeMapper
+    hands it one: map_quotient returns 1/d unchanged and turns n/d into (1/d)*n, from which
+    collection can leave 1/d alone ((1/x + x/z)**2: x**-1 * x * (1/z)); with parameters the
+    collector itself builds (1/z + 1)*x"""
     if sub not in ("expand", "pairs"):
         return False
     if not fail.kind.endswith(":raised:RuntimeError@mapper/collector.py:split_term"):
         return False
-    # with parameters the collector itself produces 1/d: x/z + x -> (1/z + 1)*x for parameter z
-    with_params = sub == "expand" and spec.get("mode") == "params"
-    return any(s[0] == "Quotient" and len(s) == 3 and (with_params or _is_one(s[1]))
+    return any(s[0] == "Quotient" and len(s) == 3
                for t in _trees(sub, spec) for s in subspecs(t))
 
 
